@@ -86,6 +86,9 @@ func (s *SwapV2) swapPools(ctx context.Context) []EditableChecker {
 	default:
 	}
 
+	s.muPairs.RLock()
+	defer s.muPairs.RUnlock()
+
 	pools := make([]EditableChecker, 0, len(s.pairs))
 
 	for _, pair := range s.pairs {
